@@ -132,6 +132,11 @@ def acceptedOf (s : Sem) : SemOp → List Waiter
     else if s.max < n then [] else [(id, n)]
   | _ => []
 
+/-- requests accepted (not rejected) along a run, in request order -/
+def acceptedRun : Sem → List SemOp → List Waiter
+  | _, [] => []
+  | s, op :: ops => acceptedOf s op ++ acceptedRun (step s op).1 ops
+
 def sumAmt : List Waiter → Int
   | [] => 0
   | w :: ws => w.2 + sumAmt ws
@@ -161,25 +166,25 @@ def eraseHeld (id : Nat) : List Waiter → List Waiter
   | [] => []
   | w :: ws => if w.1 = id then ws else w :: eraseHeld id ws
 
-def gstep (g : G) : COp → G × List Ev
-  | .acquire id n =>
-    let r := step g.sem (.acquire id n)
-    (⟨r.1, g.held ++ grantsOf r.2⟩, r.2)
+/-- The API call a client op turns into, with the holders left after the
+client gave its reservation back (`none`: releasing something not held is a no-op
+at this level; the raw `Release` of an arbitrary amount is `SemOp.release`). -/
+def toSemOp (g : G) : COp → Option (SemOp × List Waiter)
+  | .acquire id n => some (.acquire id n, g.held)
   | .release id =>
     match findHeld id g.held with
-    | none => (g, [])
-    | some w =>
-      let r := step g.sem (.release w.2)
-      (⟨r.1, eraseHeld id g.held ++ grantsOf r.2⟩, r.2)
-  | .updActual n =>
-    let r := step g.sem (.updActual n)
-    (⟨r.1, g.held ++ grantsOf r.2⟩, r.2)
-  | .updSize n =>
-    let r := step g.sem (.updSize n)
-    (⟨r.1, g.held ++ grantsOf r.2⟩, r.2)
-  | .updFreeUsed f u =>
-    let r := step g.sem (.updFreeUsed f u)
-    (⟨r.1, g.held ++ grantsOf r.2⟩, r.2)
+    | none => none
+    | some w => some (.release w.2, eraseHeld id g.held)
+  | .updActual n => some (.updActual n, g.held)
+  | .updSize n => some (.updSize n, g.held)
+  | .updFreeUsed f u => some (.updFreeUsed f u, g.held)
+
+def gstep (g : G) (op : COp) : G × List Ev :=
+  match toSemOp g op with
+  | none => (g, [])
+  | some (o, h) =>
+    let r := step g.sem o
+    (⟨r.1, h ++ grantsOf r.2⟩, r.2)
 
 def grun : G → List COp → G × List Ev
   | g, [] => (g, [])
